@@ -16,12 +16,12 @@ Definition filter_only_trig (q : rtrig) : Prop :=
 Definition filter_only (c : cfg) : Prop :=
   (forall f, filter_only_trig (trig_of c f)) /\ caller_filter c = false /\ 1 <= gdepth c /\ loc_free_all c.
 
-(* every call takes time, lies inside its caller's interval, and none runs exactly the threshold T
-   (there record time keeps `>` and replay time drops `<`: C07_threshold_boundary_refuted) *)
+(* every call takes time and lies inside its caller's interval (a call may run exactly the threshold: since /repo
+   075e798 record time keeps `>=` where replay time drops `<`) *)
 Fixpoint wf_call (T : N) (n : call) : Prop :=
   match n with
   | Call _ t0 t1 ks =>
-      (t0 < t1)%N /\ (t1 < two64)%N /\ tdelta t1 t0 <> T /\
+      (t0 < t1)%N /\ (t1 < two64)%N /\
       (fix go (l : list call) : Prop :=
          match l with
          | [] => True
@@ -30,10 +30,10 @@ Fixpoint wf_call (T : N) (n : call) : Prop :=
   end.
 Definition wf_forest (c : cfg) (f : list call) : Prop := Forall (wf_call (threshold c)) f.
 Lemma wf_kids T f t0 t1 ks : wf_call T (Call f t0 t1 ks) ->
-  (t0 < t1)%N /\ (t1 < two64)%N /\ tdelta t1 t0 <> T /\ Forall (wf_call T) ks
+  (t0 < t1)%N /\ (t1 < two64)%N /\ Forall (wf_call T) ks
   /\ Forall (fun k => (t0 <= c_t0 k)%N /\ (c_t1 k <= t1)%N) ks.
 Proof.
-  cbn [wf_call]. intros (A & B & C & D). repeat split; auto.
+  cbn [wf_call]. intros (A & B & D). repeat split; auto.
   - induction ks as [|k ks IH]; constructor; [apply D|apply IH; apply D].
   - induction ks as [|k ks IH]; constructor; [split; apply D|apply IH; apply D].
 Qed.
@@ -281,7 +281,7 @@ Section Rec.
   Proof.
     induction n as [f t0 t1 ks IH] using call_ind'. intros i o dp stk ri ou hk Hi Ho Hlen Hwf.
     pose proof (rec_kids ks IH) as HK.
-    apply wf_kids in Hwf. destruct Hwf as (H01 & H1 & _ & Hwk & _).
+    apply wf_kids in Hwf. destruct Hwf as (H01 & H1 & Hwk & _).
     assert (Hl : (length stk < 1024)%nat) by (cbn [height] in Hlen; lia).
     assert (Hlk0 : (length stk + fheight ks <= 1024)%nat) by (cbn [height] in Hlen; unfold fheight; lia).
     assert (Hlk1 : forall F, (length (F :: stk) + fheight ks <= 1024)%nat)
@@ -393,7 +393,7 @@ Lemma short_gone c : filter_only c -> forall n, wf_call (threshold c) n ->
   tprune c (threshold c) n = [] /\ forall inF lv, sel c inF lv n = [].
 Proof.
   intros (Htr & Hcl & _ & _). induction n as [f t0 t1 ks IH] using call_ind'. intros Hwf Hs.
-  apply wf_kids in Hwf. destruct Hwf as (H01 & H1 & _ & Hwk & Hin). cbn [c_t0 c_t1] in Hs.
+  apply wf_kids in Hwf. destruct Hwf as (H01 & H1 & Hwk & Hin). cbn [c_t0 c_t1] in Hs.
   rewrite (tdelta_sub t0 t1) in Hs by lia.
   assert (K : Forall (fun k => tprune c (threshold c) k = [] /\ forall inF lv, sel c inF lv k = []) ks).
   { rewrite Forall_forall in *. intros k Hk. apply (IH k Hk (Hwk k Hk)).
@@ -413,7 +413,7 @@ Proof.
 Qed.
 
 Lemma long_kept c : filter_only c -> forall f t0 t1 ks, (t0 < t1)%N -> (t1 < two64)%N ->
-  (threshold c < tdelta t1 t0)%N ->
+  (threshold c <= tdelta t1 t0)%N ->
   tprune c (threshold c) (Call f t0 t1 ks) = [Call f t0 t1 (flat_map (tprune c (threshold c)) ks)].
 Proof.
   intros (Htr & Hcl & _ & _) f t0 t1 ks H01 H1 Hl. destruct (Htr f) as (Q1 & Q2 & Q3 & Q4 & Q5 & Q6 & Q7).
@@ -441,8 +441,8 @@ Lemma vis_sel c : filter_only c -> plt_free_all c -> forall n, vis_sel_stmt c n.
 Proof.
   intros Hfo Hp. pose proof Hfo as (Htr & _ & Hgd & Hlf). induction n as [f t0 t1 ks IH] using call_ind'.
   intros inF lv d rd rd' b Hb Hwf. pose proof (vis_sel_kids c ks IH) as HK.
-  pose proof Hwf as Hwf0. apply wf_kids in Hwf. destruct Hwf as (H01 & H1 & Hne & Hwk & _).
-  assert (Hcase : (tdelta t1 t0 < threshold c)%N \/ (threshold c < tdelta t1 t0)%N) by lia.
+  pose proof Hwf as Hwf0. apply wf_kids in Hwf. destruct Hwf as (H01 & H1 & Hwk & _).
+  assert (Hcase : (tdelta t1 t0 < threshold c)%N \/ (threshold c <= tdelta t1 t0)%N) by lia.
   destruct Hcase as [Hs|Hl].
   { destruct (short_gone c Hfo _ Hwf0 Hs) as [E1 E2]. rewrite E1, E2. reflexivity. }
   rewrite (long_kept c Hfo f t0 t1 ks H01 H1 Hl).
